@@ -280,10 +280,16 @@ func persistOp(e *WEnv, a []string) string {
 		if !strings.HasPrefix(walletStatusOf(e, a[1]), "importing") {
 			return "ok" // nothing to do (not in that state any more)
 		}
-		_, err := e.wm.VerifImportStep(id)
+		fin, err := e.wm.VerifImportStep(id)
 		if err == masswallet.ErrImportingContinuable {
 			// the follower has to process a reorganisation first; the worker queues the batch again
 			return "ok"
+		}
+		if err != nil && fin {
+			// the worker re-queues a failed batch only when asyncImport reports "not finished": a failed
+			// step that claims to be finished drops the accepted import (the wallet stays un-ready)
+			errTok(err)
+			return "err-task-dropped"
 		}
 		return errTok(err)
 	}
